@@ -82,3 +82,60 @@ package route
 //@     invariant[none]   forall k int :: 0 <= k && k < #i ==> !destAccepts(d[k], nm)
 //@     invariant[quiet]  forall ch ref :: sentAt("[]uint8", ch) == old(sentAt("[]uint8", ch))
 //@     invariant[wf]     destsWf(d)
+
+// ---------------------------------------------------------------- consistent_hashing.go (C15)
+// ringPos(key): Carbon's 16-bit ring position, the first two bytes of md5(key), big endian.
+//@ smt (declare-fun ringPos (Bytes) Int)
+//@ axiom ringPos_range: (assert (forall ((k Bytes)) (! (and (<= 0 (ringPos k)) (< (ringPos k) 65536)) :pattern ((ringPos k)))))
+//@
+//@ func computeRingPosition(key []byte) uint16
+//@   property C15
+//@   trusted
+//@   ensures[md5_16bit; C15; bounded] result == ringPos(key[..])
+//@   bounded TestBounded_computeRingPosition "2000 random keys (seeded) plus Carbon-style replica keys: result == md5(key)[0]*256 + md5(key)[1]"
+//@
+//@ spec lexLess(a hashRingEntry, b hashRingEntry) bool := a.Position < b.Position
+//@      || (a.Position == b.Position && blt(a.Hostname, b.Hostname))
+//@      || (a.Position == b.Position && a.Hostname == b.Hostname && blt(a.Instance, b.Instance))
+//@
+//@ func (r hashRing) Less(i int, j int) bool
+//@   property C15
+//@   requires 0 <= i && i < len(r) && 0 <= j && j < len(r)
+//@   ensures[carbon_order] result == lexLess(r[i], r[j])
+//@
+//@ // the ring is searched by position: it must be sorted by position (it is sorted by lexLess after every AddDestination)
+//@ spec ringSorted(h *ConsistentHasher) := forall i int, j int :: 0 <= i && i <= j && j < len(h.Ring) ==> h.Ring[i].Position <= h.Ring[j].Position
+//@
+//@ func (h *ConsistentHasher) GetDestinationIndex(key []byte) int
+//@   property C15
+//@   requires len(h.Ring) > 0 && ringSorted(h)
+//@   let p := ringPos(key[..])
+//@   ensures[owner] exists idx int :: 0 <= idx && idx < len(h.Ring) && result == h.Ring[idx].DestinationIndex
+//@        && ((h.Ring[idx].Position >= p && (forall k int :: 0 <= k && k < idx ==> h.Ring[k].Position < p))
+//@            || (idx == 0 && (forall k int :: 0 <= k && k < len(h.Ring) ==> h.Ring[k].Position < p)))
+//@
+//@ func NewConsistentHasher(destinations []*dest.Destination) ConsistentHasher
+//@   property C15
+//@   trusted
+//@   ensures[replicas; C15; bounded] true
+//@   bounded TestBounded_consistentHashRing "every non-empty subset of up to 4 out of 5 destinations (with/without instance and port) in every order x 3000 (thorough 20000) random names: the destination picked equals an independent implementation of Carbon's ring (16-bit md5 positions, 100 replicas, bisect_left with wrap-around), independent of listing order; adding a destination moves only keys onto it"
+//@
+//@ spec isOwner(h *ConsistentHasher, idx int, p int) bool := 0 <= idx && idx < len(h.Ring)
+//@        && ((h.Ring[idx].Position >= p && (forall k int :: 0 <= k && k < idx ==> h.Ring[k].Position < p))
+//@            || (idx == 0 && (forall k int :: 0 <= k && k < len(h.Ring) ==> h.Ring[k].Position < p)))
+//@ spec chConf(route *ConsistentHashing) := as(baseConf(route.baseRoute), consistentHashingConfig)
+//@
+//@ // exactly one destination receives the line: the owner of the metric name on Carbon's ring
+//@ func (route *ConsistentHashing) Dispatch(buf []byte)
+//@   property C01,C15
+//@   requires typeIs(baseConf(route.baseRoute), consistentHashingConfig) && chConf(route).Hasher != nil
+//@   requires len(chConf(route).Hasher.Ring) > 0 && ringSorted(chConf(route).Hasher) && destsWf(chConf(route).baseConfig.dests)
+//@   requires forall k int :: 0 <= k && k < len(chConf(route).Hasher.Ring) ==> 0 <= chConf(route).Hasher.Ring[k].DestinationIndex && chConf(route).Hasher.Ring[k].DestinationIndex < len(chConf(route).baseConfig.dests)
+//@   let h  := chConf(route).Hasher
+//@   let d  := chConf(route).baseConfig.dests
+//@   let B  := buf[..]
+//@   modifies allof("chan:[]uint8#sent")
+//@   ensures[owner_only] bindex(B, 32) > 0 ==> (exists idx int :: isOwner(h, idx, ringPos(nameOf(B))) && (forall j int :: 0 <= j && j < len(d) ==>
+//@        sent(d[j].In) == (j == h.Ring[idx].DestinationIndex ? old(sent(d[j].In)) ++ elemOf(buf) : old(sent(d[j].In)))))
+//@   ensures[no_other]   forall ch ref :: (forall j int :: 0 <= j && j < len(d) ==> d[j].In != ch) ==> sentAt("[]uint8", ch) == old(sentAt("[]uint8", ch))
+//@   ensures[unparsable] bindex(B, 32) <= 0 ==> (forall ch ref :: sentAt("[]uint8", ch) == old(sentAt("[]uint8", ch)))
